@@ -149,6 +149,8 @@ impl<T: UciTx, H: Heuristic, M: MoveOrder> Search<T, H, M> {
         self.state.started_at = SystemTime::now();
 
         let (best_move, ponder_move) = self.best_move();
+        #[cfg(feature = "inkayaku_verif")]
+        self.uci_tx.debug(&crate::engine::verif::dump(&self.state.bitboard));
         self.uci_tx.best_move(best_move, ponder_move);
 
         self.state.is_running = false;
@@ -291,6 +293,10 @@ impl<T: UciTx, H: Heuristic, M: MoveOrder> Search<T, H, M> {
 
     #[inline(always)]
     fn should_check_flags(&mut self) -> bool {
+        #[cfg(feature = "inkayaku_verif")]
+        if let Some(result) = crate::engine::verif::should_check_flags(self.state.metrics.last.negamax_nodes) {
+            return result;
+        }
         self.state.metrics.last.negamax_nodes % 100_000 == 0 && self.state.metrics.last.negamax_nodes > 0
     }
 
@@ -317,8 +323,23 @@ impl<T: UciTx, H: Heuristic, M: MoveOrder> Search<T, H, M> {
                 ..self.generate_info()
             });
 
+            #[cfg(feature = "inkayaku_verif")]
+            {
+                let nodes = self.state.metrics.last.negamax_nodes;
+                let armed = crate::engine::verif::abort_armed_at(nodes);
+                if armed || self.flags.stop_as_soon_as_possible {
+                    crate::engine::verif::note_abort(nodes, ply_depth_from_root, max_ply);
+                }
+                if armed {
+                    self.flags.stop_as_soon_as_possible = true;
+                    return ValuedMove::leaf(0);
+                }
+            }
+
             if let Some(move_time) = self.params.go.move_time {
                 if self.state.elapsed() > move_time {
+                    #[cfg(feature = "inkayaku_verif")]
+                    crate::engine::verif::note_abort(self.state.metrics.last.negamax_nodes, ply_depth_from_root, max_ply);
                     self.flags.stop_as_soon_as_possible = true;
                     return ValuedMove::leaf(0);
                 }
